@@ -9,5 +9,5 @@ if [ ! -x .venv/bin/python ] || ! .venv/bin/python -c "import crosshair, z3" 2>/
   echo "import site; site.addsitedir('/venv/lib/python3.12/site-packages')" > .venv/lib/python3.12/site-packages/_venv_overlay.pth
   PIP_NO_INDEX=1 .venv/bin/pip install -q --no-index --find-links /opt/veriftools/wheels crosshair-tool
 fi
-.venv/bin/python -c "import crosshair, z3, python_minifier, os; assert os.path.realpath(python_minifier.__file__).startswith('/repo/'), python_minifier.__file__"
+.venv/bin/python -c "import crosshair, z3, python_minifier, os; r = os.path.realpath(os.environ.get('VERIF_REPO', '/repo')) + '/'; assert os.path.realpath(python_minifier.__file__).startswith(r), python_minifier.__file__"
 echo "setup ok"
